@@ -541,6 +541,23 @@ def run(tier, seed, replay):
             ndis += 1
             if first is None:
                 first = {"case": c, "model": m, "impl": vals}
+    # terms whose operators are tiny (equal within the absolute tolerance of Qobj.__eq__, not equal) keep their own
+    # coefficients: the value is the sum of the terms, with and without compression
+    try:
+        import qutip
+        for sc_ in (1e-13, 1e-15, 1.0):
+            terms_ = [[sc_ * qutip.sigmax(), f"{1 / sc_!r}*t"], [sc_ * qutip.sigmay(), f"{1 / sc_!r}*t**2"], [sc_ * qutip.sigmaz(), f"{1 / sc_!r}"]]
+            tt = 2.0
+            want_ = (tt * qutip.sigmax() + tt ** 2 * qutip.sigmay() + qutip.sigmaz()).full()
+            rep.evaluations += 1
+            rep.count("tiny-operators")
+            for how_, q_ in (("default", qutip.QobjEvo(terms_)), ("compress=False", qutip.QobjEvo(terms_, compress=False)), ("sum of objects", qutip.QobjEvo(terms_[0]) + qutip.QobjEvo(terms_[1]) + qutip.QobjEvo(terms_[2]))):
+                got_ = q_(tt).full()
+                if np.abs(got_ - want_).max() > 1e-9:
+                    rep.violation(core.Violation("C05:tiny-operators-merged", f"a QobjEvo of three terms whose operators have entries of size {sc_:g} ({how_}) evaluates to {got_.tolist()} at t={tt}, the sum of its terms is {want_.tolist()}", {"scale": sc_, "how": how_}))
+                    break
+    except Exception as e:
+        rep.violation(core.Violation("C05:tiny-operators-raises", f"{type(e).__name__}: {e}"[:300], {}))
     # objects that are not square (ket-, bra- or rectangular-valued): adjoint and transpose have the shape of their value,
     # compose with the original, and a number cannot be added; an object added to itself is twice itself
     try:
